@@ -188,7 +188,8 @@ def r2(ctx, F, rule, sfx):
     ok = False
     if len(ext) == 1:
         ch, src = stream_chain(ext[0].fargs[1])
-        ok = [n for n, _ in ch] == ['map', 'iter'] and repr(src) == 'children' and repr(ext[0].fargs[0]).endswith('it.nodes')
+        heap_field = heap_elem_type(F)[1]['name']
+        ok = [n for n, _ in ch] == ['map', 'iter'] and repr(src) == 'children' and repr(ext[0].fargs[0]).endswith('it.' + heap_field)
     ctx.check(rule, 'one-entry-per-child' + sfx, ok, 'extend calls: %d' % len(ext), 'self.nodes.extend(children.iter().map(entry))', where(eh), key_extra='extend')
     # the search step
     ip = I.Interp(F, no_inline=[eh['path']])
